@@ -8,6 +8,7 @@ static const Part kParts[] = {
 	{"C01", "vol-roundtrip", 4000, 400000},
 	{"C02", "vol-roundtrip", 3000, 300000},
 	{"C02", "vol-foreign", 3000, 300000},
+	{"C03", "clm-roundtrip", 3000, 300000},
 	{"C04", "lzh-drain", 6000, 600000},
 	{"C12", "stream-actors", 60000, 3000000},
 	{"C13", "stream-actors", 40000, 2000000},
